@@ -87,7 +87,12 @@ impl InsertionContext {
         // NOTE a tour without jobs must not be seen by the state handlers: per-solution values would count it
         self.solution.remove_empty_routes();
         self.problem.goal.accept_solution_state(&mut self.solution);
+        // NOTE a state handler may take the last job out of a tour: per-solution values are computed again without it
+        let routes = self.solution.routes.len();
         self.solution.remove_empty_routes();
+        if routes != self.solution.routes.len() {
+            self.problem.goal.accept_solution_state(&mut self.solution);
+        }
     }
 }
 
